@@ -84,17 +84,17 @@ func respondOK(w *gldap.ResponseWriter, r *gldap.Request) error {
 
 // readUntilClosed reads frames until the peer closes; returns the frames, how
 // it ended ("eof", "reset", "timeout", "malformed") and the stamped sequence
-// number of the end.
-func readUntilClosed(cl *lab.Client, max time.Duration) (frames []*wire.Message, how string, seq int64) {
-	deadline := time.Now().Add(max)
+// number of the end. idle is an IDLE timeout: "timeout" means that nothing at
+// all arrived for that long - a slow but progressing transfer (megabytes
+// through TLS in the race build on a busy machine) never times out.
+func readUntilClosed(cl *lab.Client, idle time.Duration) (frames []*wire.Message, how string, seq int64) {
 	for {
-		left := time.Until(deadline)
-		if left <= 0 {
-			return frames, "timeout", lab.NextSeq()
-		}
-		m, err := cl.Next(left)
+		m, err := cl.Next(idle)
 		if err == nil {
 			frames = append(frames, m)
+			if len(frames) > 4096 {
+				frames = frames[len(frames)-1024:] // keep memory bounded; callers look at IDs of small scenarios only
+			}
 			continue
 		}
 		seq = lab.NextSeq()
